@@ -12,6 +12,7 @@ var propRules = map[string][]ruleSpec{
 		{"R3", "initial states / weights not modified (E2)", ruleR3},
 		{"R21", "attribute state read-only after Init", ruleR21},
 		{"R24", "defaults replace optional inputs only when absent", ruleOptionalDefaults},
+		{"R25", "contracts of the shared ops helpers this property's operators rely on", ruleHelpers},
 	},
 	"C16": {
 		{"R11", "Conv batch-index pairing (K2, K3)", ruleR11},
@@ -21,6 +22,7 @@ var propRules = map[string][]ruleSpec{
 		{"R7t", "Transpose delegates to gorgonia", ruleTermsShapeOps},
 		{"R22", "the broadcast of elementwise operators is not decided by gorgonia's lax Shape.Eq", ruleR22},
 		{"R23", "per-axis broadcast loops visit every axis", ruleR23},
+		{"R25", "contracts of the shared ops helpers this property's operators rely on", ruleHelpers},
 	},
 	"C05": {
 		{"R11", "Conv geometry: loop/coordinate pairing (K2,K3), index kinds (K1), auto_pad (K4)", ruleR11},
@@ -30,6 +32,7 @@ var propRules = map[string][]ruleSpec{
 		{"R11o", "kernel-shape readers run after the dilation step (K6)", ruleConvOrdering},
 		{"R11p", "derived paddings are never negative (K7)", ruleConvPadsNonNeg},
 		{"R24", "defaults replace optional inputs only when absent", ruleOptionalDefaults},
+		{"R25", "contracts of the shared ops helpers this property's operators rely on", ruleHelpers},
 	},
 	"C04": {
 		{"R16", "dependency shape of Gemm / Scaler / LinearRegressor / MatMul", ruleR16},
@@ -56,12 +59,14 @@ var propRules = map[string][]ruleSpec{
 		{"R20", "Data() passes the scalar wrapper before slice assertions", ruleR20Scalar},
 		{"R3", "operands not modified (E2)", ruleR3},
 		{"R21", "attribute state read-only after Init", ruleR21},
+		{"R25", "contracts of the shared ops helpers this property's operators rely on", ruleHelpers},
 	},
 	"C11": {
 		{"R14", "Cast / Constant / ConstantOfShape tables", ruleR14},
 		{"R20", "source dtypes covered by the scalar wrapper", ruleR20Scalar},
 		{"R21", "attribute state read-only after Init", ruleR21},
 		{"R22", "gorgonia's lax Shape.Eq does not decide shape matching", ruleR22},
+		{"R25", "contracts of the shared ops helpers this property's operators rely on", ruleHelpers},
 	},
 	"C07": {
 		{"R9", "user axes validated (R9a) and normalised (R9b)", ruleR9},
@@ -69,6 +74,7 @@ var propRules = map[string][]ruleSpec{
 		{"R20", "Data() passes the scalar wrapper before slice assertions", ruleR20Scalar},
 		{"R21", "attribute state read-only after Init", ruleR21},
 		{"R22", "gorgonia's lax Shape.Eq does not decide shape matching", ruleR22},
+		{"R25", "contracts of the shared ops helpers this property's operators rely on", ruleHelpers},
 	},
 	"C08": {
 		{"R9", "user axes/indices validated (R9a) and normalised (R9b)", ruleR9},
@@ -79,6 +85,7 @@ var propRules = map[string][]ruleSpec{
 		{"R21", "attribute state read-only after Init", ruleR21},
 		{"R7t", "Transpose delegates to gorgonia", ruleTermsShapeOps},
 		{"R22", "gorgonia's lax Shape.Eq does not decide shape matching", ruleR22},
+		{"R25", "contracts of the shared ops helpers this property's operators rely on", ruleHelpers},
 	},
 	"C09": {
 		{"R9", "requested axes normalised before reaching gorgonia (R9b; R9a as notes)", ruleR9},
@@ -89,6 +96,7 @@ var propRules = map[string][]ruleSpec{
 		{"R7t", "Softmax/LogSoftmax delegate to gorgonia on the requested axis", ruleTermsShapeOps},
 		{"R9d", "every requested axis reaches the reduction", ruleAxesPreserved},
 		{"R22", "gorgonia's lax Shape.Eq does not decide shape matching", ruleR22},
+		{"R25", "contracts of the shared ops helpers this property's operators rely on", ruleHelpers},
 	},
 	"C14": {
 		{"R10", "Repeat only as a guarded stretch", ruleR10},
